@@ -24,6 +24,7 @@ META = {
     "encoded": ["memory._Namespace.is_available", "memory._Namespace.assign", "memory._Namespace.extend",
                 "memory._Namespace.names", "memory.MemoryMap.Name.__new__", "memory.MemoryMap.add_resource",
                 "memory.MemoryMap.add_window", "memory.MemoryMap.all_resources"],
+    "also": "alphabet {'a','b','ab','0',0,300} (300 is not cached by CPython; concrete replays build fresh objects); the same Name object re-used; names handed back from resources(); anonymous windows nested two deep; refused windows must stay usable; heavy shapes split over processes by the first part",
     "bounds": "up to 3 names (thorough 4) of length 1-2 (pairs up to length 3) over the alphabet "
               "{'a','b','ab','0',0,1}; added as resources, named windows, or resources inside an anonymous window "
               "(absorbed names); an interleaved add that fails for a non-name reason (out-of-bounds address) followed "
